@@ -33,20 +33,23 @@
                                                (C19's setup-fault probe covers connection_made failing there) *)
 From Coq Require Import ZArith List Bool Arith.
 From Coq Require Import Strings.Byte.
-From HP Require Import Bytes Utf8 Sha1 Wire Broker.
+From HP Require Import Bytes Utf8 Sha1 Wire ParamsOK Broker.
 Import ListNotations.
 Open Scope Z_scope.
 
-Inductive bres (A : Type) := BOk (a : A) (s : state) | BRaise (s : state) | BFuel (s : state).
+(* BProto: a ProtocolException (hpfeeds.exceptions) is propagating - raised only by the Unpacker, on a bad header;
+   BRaise: any other exception *)
+Inductive bres (A : Type) := BOk (a : A) (s : state) | BRaise (s : state) | BFuel (s : state) | BProto (s : state).
 Arguments BOk {A} a s.
 Arguments BRaise {A} s.
 Arguments BFuel {A} s.
+Arguments BProto {A} s.
 Definition BM (A : Type) := state -> bres A.
 Definition ctl := option bool.
 
 Definition retB {A} (a : A) : BM A := fun s => BOk a s.
 Definition bindB {A B} (m : BM A) (f : A -> BM B) : BM B :=
-  fun s => match m s with BOk a s' => f a s' | BRaise s' => BRaise s' | BFuel s' => BFuel s' end.
+  fun s => match m s with BOk a s' => f a s' | BRaise s' => BRaise s' | BFuel s' => BFuel s' | BProto s' => BProto s' end.
 Definition seqB (m k : BM ctl) : BM ctl :=
   bindB m (fun c => match c with None => k | Some b => retB (Some b) end).
 Definition fall : BM ctl := retB None.
@@ -56,7 +59,9 @@ Definition eff (f : state -> state) : BM ctl := fun s => BOk None (f s).
 Definition pureB (f : state -> bool) : BM bool := fun s => BOk (f s) s.
 Definition ifB (c : BM bool) (t e : BM ctl) : BM ctl := bindB c (fun b => if b then t else e).
 (* try: ... except Exception: ... *)
-Definition tryB (m h : BM ctl) : BM ctl := fun s => match m s with BRaise s' => h s' | r => r end.
+Definition tryB (m h : BM ctl) : BM ctl := fun s => match m s with BRaise s' | BProto s' => h s' | r => r end.
+(* try: ... except ProtocolException: ... *)
+Definition try_proto (m h : BM ctl) : BM ctl := fun s => match m s with BProto s' => h s' | r => r end.
 (* for x in <list evaluated once>: body *)
 Fixpoint forB {X} (l : list X) (body : X -> BM ctl) : BM ctl :=
   match l with [] => fall | x :: t => seqB (body x) (forB t body) end.
@@ -74,9 +79,9 @@ Definition with_server {A} (q : nat) (m : BM A) : BM A :=
 Definition of_res (k : state -> res) : BM ctl :=
   fun s => match k s with Ok s' => BOk None s' | Raise s' => BRaise s' | Fuel s' => BFuel s' end.
 Definition to_res {A} (r : bres A) : res :=
-  match r with BOk _ s => Ok s | BRaise s => Raise s | BFuel s => Fuel s end.
+  match r with BOk _ s => Ok s | BRaise s | BProto s => Raise s | BFuel s => Fuel s end.
 Definition to_resb (r : bres bool) : res * bool :=
-  match r with BOk b s => (Ok s, b) | BRaise s => (Raise s, false) | BFuel s => (Fuel s, false) end.
+  match r with BOk b s => (Ok s, b) | BRaise s | BProto s => (Raise s, false) | BFuel s => (Fuel s, false) end.
 
 (* ---- reading attributes -------------------------------------------------------------------- *)
 Definition opt_is (i : bytes) (a : option ident) : bool :=          (* i == X.ak *)
@@ -129,3 +134,24 @@ Definition p_new_conn (q : nat) (n : bytes) (s : state) : state :=
 Definition p_start_timer (q : nat) (n : nat) : state -> state := modc q (set_timer (Some n)).
 Definition p_cancel_timer (q : nat) : state -> state := modc q (set_timer None).
 Definition timer_running (c : conn) : bool := match timer c with Some _ => true | None => false end.
+
+(* ---- the frame loop ------------------------------------------------------------------------------ *)
+(* self.unpacker.feed(data) *)
+Definition p_feed (q : nat) (data : bytes) (s : state) : state := modc q (set_buf (buf (conns s q) ++ data)) s.
+(* for opcode, data in self.unpacker:
+       if <body opcode data>: break
+   read as: one iteration, then the same loop again - `again` is process_pending itself (the same loop under the same
+   except clause), which is how the model's fuel counts iterations and nesting alike.  Unpacker.__next__ (Wire.next, proved
+   equal to the translated protocol.py in ProtoGenEq.v): StopIteration ends the loop, a bad header raises BadClient
+   (a ProtocolException), a complete frame is removed from the buffer and handed to the body. *)
+Definition for_unpacker_until (q : nat) (again : state -> res) (body : Z -> bytes -> BM bool) : BM ctl := fun s =>
+  match next limitP (buf (conns s q)) with
+  | NeedMore => BOk None s
+  | Bad _ => BProto s
+  | Ready op b rest =>
+      match body op b (modc q (set_buf rest) s) with
+      | BOk true s' => BOk None s'
+      | BOk false s' => of_res again s'
+      | BRaise s' => BRaise s' | BFuel s' => BFuel s' | BProto s' => BProto s'
+      end
+  end.
